@@ -36,7 +36,9 @@ Model (JSON):
           "thread": bool,                          # the operation is called from a worker thread (threading.Thread; result/exception handed back)
           "user_wt": None | "ref" | "griffe-ref",   # before the operation the user adds a linked worktree of their own whose directory
                                                     # basename is normalize(ref) / "griffe-" + normalize(ref)
-          "fault": None | {"type": "ext_exc" | "ext_kbi", "k": int} | {"type": "sub_nonzero" | "sub_oserror", "i": int}}
+          "fault": None | {"type": "ext_exc" | "ext_kbi", "k": int} | {"type": "sub_nonzero" | "sub_oserror" | "sub_timeout", "i": int}}
+          # sub_timeout: the i-th pre-body git step is slow — it runs to completion, then subprocess.run raises TimeoutExpired; only
+          # possible (and only injected) when the caller passed a timeout
 
 All indices are taken modulo what exists, so every drawn model is valid and shrinks freely.
 """
@@ -305,7 +307,7 @@ def strategy():
     )
     refspec = st.tuples(st.sampled_from(["tag", "tag", "branch", "branch", "slashed", "slashed", "remote", "sha", "short", "absent", "HEAD", "HEAD~1", "main", "unknown"]), st.integers(0, 3)).map(list)
     ext_fault = st.fixed_dictionaries({"type": st.sampled_from(["ext_exc", "ext_kbi"]), "k": st.integers(0, 400)})
-    sub_fault = st.fixed_dictionaries({"type": st.sampled_from(["sub_nonzero", "sub_oserror"]), "i": st.integers(0, 4)})
+    sub_fault = st.fixed_dictionaries({"type": st.sampled_from(["sub_nonzero", "sub_oserror", "sub_timeout", "sub_timeout"]), "i": st.integers(0, 4)})
     fault = st.one_of(st.none(), st.none(), ext_fault, ext_fault, sub_fault)
     op = st.fixed_dictionaries(
         {
